@@ -76,6 +76,9 @@ func (d *PathDecoder) SignatureAtPos(filename string, pos hcl.Pos) (*lang.Functi
 		}
 
 		if !foundActivePar {
+			// position is behind the last argument (e.g. trailing whitespace)
+			activePar = lastArgIdx
+
 			recoveredBytes := recoverLeftBytes(file.Bytes, pos, func(byteOffset int, r rune) bool {
 				return r == ',' && byteOffset > lastArgEndPos.Byte
 			})
